@@ -39,9 +39,12 @@ def sample_of(job, k=0):
     return {"cfg": job.cfg, "header": h, "commands": cmds[:25], "first_events": ev}
 
 
-def run_seq_property(prop, tier, seed):
+def run_trace_property(prop, tier, seed, jobs, model_runs=(), assumptions=None, rule=None):
+    """Generic check: run the jobs (driver + TLC trace validation against a contract), run the
+    design-model checks of the property, attribute violations, confirm, write evidence."""
     t0 = time.time()
-    jobs = plans.jobs_for(prop, tier, seed)
+    from . import models
+    mres = models.run_models(model_runs, tier)
     engine.run_jobs(jobs, prop)
     violations, known, others, infra = engine.attribute(jobs, prop)
     if infra:
@@ -71,14 +74,20 @@ def run_seq_property(prop, tier, seed):
     for job in jobs:
         for v in job.verdict["viol"]:
             rules[v["prop"] + "/" + v["rule"]] = rules.get(v["prop"] + "/" + v["rule"], 0) + 1
+    model_violations = []
+    for m in mres:
+        if not m["as_expected"]:
+            model_violations.append(m)
     coverage = {
-        "states": sum(j.stats.get("tlc_states", 0) for j in jobs),
-        "transitions": st["events"],
+        "states": sum(m["distinct"] for m in mres) + sum(j.stats.get("tlc_states", 0) for j in jobs),
+        "transitions": sum(m["generated"] for m in mres) + st["events"],
+        "design_models": [{k: m[k] for k in ("module", "cfg", "expect", "outcome", "distinct", "generated", "wall_s", "as_expected")} for m in mres],
+        "trace_validation_states": sum(j.stats.get("tlc_states", 0) for j in jobs),
         "traces_validated_against_impl": st["executions"],
         "evaluations": st["executions"],
         "distinct_nontrivial": st["distinct_nontrivial"],
-        "rule": "seeded command scripts per subject family and configuration (vlib/plans.py); an execution counts as "
-                "non-trivial if at least one allocation succeeded; distinct by hash of configuration+script",
+        "rule": rule or "seeded command scripts per subject family and configuration (vlib/plans*.py); an execution counts as "
+                "non-trivial if at least one operation succeeded; distinct by hash of configuration+script",
         "samples": [sample_of(jobs[0]), sample_of(jobs[-1])],
         "events_judged": st["events"],
         "configs": sorted({j.cfg for j in jobs}),
@@ -86,16 +95,26 @@ def run_seq_property(prop, tier, seed):
         "known_findings_seen": sorted(kf_seen),
         "exhaustive": False,
     }
-    write_evidence(prop, tier, seed, "model_checking", coverage, time.time() - t0, len(reported),
-                   ["TLC evaluates the SeqTrace contract on traces recorded by the harness driver `seq`",
-                    "the instrumented upstream allocator and the driver's bookkeeping are trusted",
-                    "explored histories are bounded samples; see DESIGN.md"])
+    write_evidence(prop, tier, seed, "model_checking", coverage, time.time() - t0, len(reported) + len(model_violations),
+                   assumptions or
+                   ["TLC evaluates the contract module on traces recorded by the harness drivers from the real library",
+                    "the instrumented upstream allocator and the drivers' bookkeeping are trusted",
+                    "explored histories are bounded samples; design models are exhaustive only within their constants; see DESIGN.md"])
+    for m in model_violations:
+        path = models.write_model_replay(prop, m)
+        print("  design model %s/%s: expected %s, got %s" % (m["module"], m["cfg"], m["expect"], m["outcome"]))
+        print("VIOLATION property=%s replay=%s" % (prop, path))
     for rec, path in reported:
         print("  guard false: %s/%s cfg=%s info=%s" % (rec["v"]["prop"], rec["v"]["rule"], rec["job"].cfg, rec["v"]["info"]))
         print("VIOLATION property=%s replay=%s" % (prop, path))
     print("[%s] %s: %d executions, %d events, %d violations, %d known, %.1fs"
           % (prop, tier, st["executions"], st["events"], len(reported), len(kf_seen), time.time() - t0))
-    return 1 if reported else 0
+    return 1 if (reported or model_violations) else 0
+
+
+def run_seq_property(prop, tier, seed):
+    from . import models
+    return run_trace_property(prop, tier, seed, plans.jobs_for(prop, tier, seed), models.MODELS.get(prop, ()))
 
 
 SEQ_PROPS = {"C01", "C02", "C03", "C04", "C05", "C06", "C07", "C12", "C15", "C18"}
@@ -108,6 +127,12 @@ def cmd_run(args):
     os.makedirs(WORK, exist_ok=True)
     if prop in SEQ_PROPS:
         return run_seq_property(prop, tier, seed)
+    from . import registry
+    if prop in registry.PROPS:
+        from . import models
+        spec = registry.PROPS[prop]
+        return run_trace_property(prop, tier, seed, spec["jobs"](prop, tier, seed), models.MODELS.get(prop, ()),
+                                  spec.get("assumptions"), spec.get("rule"))
     raise InfraError("no check registered for " + prop)
 
 
